@@ -101,6 +101,7 @@ func Load(repo string, overlay map[string][]byte, goos, goarch string) (*Prog, e
 	prog, _ := ssautil.AllPackages(pkgs, ssa.InstantiateGenerics)
 	prog.Build()
 	normalizeDeferSpills(prog)
+	normalizeDelegation(prog)
 	p.SSA = prog
 	return p, nil
 }
@@ -248,7 +249,7 @@ func (p *Prog) Method(short, typ, name string) *ssa.Function {
 			if sel.Obj().Name() == name {
 				if fn := p.SSA.MethodValue(sel); fn != nil {
 					// unwrap promoted-method wrappers to the declared method when same receiver
-					return fn
+					return followDelegation(fn)
 				}
 			}
 		}
@@ -262,7 +263,63 @@ func (p *Prog) Func(short, name string) *ssa.Function {
 	if sp == nil {
 		return nil
 	}
-	return sp.Func(name)
+	return followDelegation(sp.Func(name))
+}
+
+// followDelegation: a function whose whole body hands its receiver and parameters, unchanged and in order, to one other
+// function of the same package and returns what that returns ("Assign calls assignImpl") is a name, not a place: the
+// rules anchored on it look at the function that does the work. Functions that add, drop or change an argument
+// (Execute -> ExecuteWithContext(context.Background(), …)) are not followed.
+func followDelegation(fn *ssa.Function) *ssa.Function {
+	for i := 0; i < 3 && fn != nil; i++ {
+		if len(fn.Blocks) != 1 {
+			return fn
+		}
+		var call *ssa.Call
+		var ret *ssa.Return
+		okShape := true
+		for _, in := range fn.Blocks[0].Instrs {
+			switch x := in.(type) {
+			case *ssa.Call:
+				if call != nil {
+					okShape = false
+				}
+				call = x
+			case *ssa.Return:
+				ret = x
+			case *ssa.Extract, *ssa.DebugRef:
+			default:
+				okShape = false
+			}
+		}
+		if !okShape || call == nil || ret == nil || call.Call.IsInvoke() {
+			return fn
+		}
+		callee := call.Call.StaticCallee()
+		if callee == nil || callee.Blocks == nil || callee.Pkg != fn.Pkg || len(call.Call.Args) != len(fn.Params) || len(callee.Params) != len(fn.Params) {
+			return fn
+		}
+		for j, a := range call.Call.Args {
+			if a != ssa.Value(fn.Params[j]) {
+				return fn
+			}
+		}
+		// the results are handed on as they are
+		for j, r := range ret.Results {
+			switch x := r.(type) {
+			case *ssa.Extract:
+				if x.Tuple != ssa.Value(call) || x.Index != j {
+					return fn
+				}
+			default:
+				if r != ssa.Value(call) {
+					return fn
+				}
+			}
+		}
+		fn = callee
+	}
+	return fn
 }
 
 // IfaceMethod returns the *types.Func of an interface's method.
@@ -311,6 +368,9 @@ func (p *Prog) ModuleFuncs() []*ssa.Function {
 			return
 		}
 		seen[f] = true
+		if delegationWrapper[f] {
+			return // a one-line wrapper: the function it delegates to is analysed under its name
+		}
 		out = append(out, f)
 		for _, a := range f.AnonFuncs {
 			add(a)
@@ -409,9 +469,63 @@ func (p *Prog) InstrPos(in ssa.Instruction) string {
 }
 
 // fnName renders a function in a short, stable way: pkg.(*T).M or pkg.F
+// delegateName: function that does the work -> the one-line function that is its public name (see normalizeDelegation).
+var delegateName = map[*ssa.Function]*ssa.Function{}
+
+// delegationWrapper: the one-line wrappers themselves; they hold no logic and are left out of every set of functions a
+// rule analyses (they are still walked through in the call graph).
+var delegationWrapper = map[*ssa.Function]bool{}
+
+// normalizeDelegation makes a pure delegation ("Assign calls assignImpl with the same receiver and arguments and returns
+// what it returns") transparent: every static call of such a wrapper in the module is retargeted to the function that does
+// the work, and that function is reported under the wrapper's name. Splitting a function into a named wrapper and an
+// implementation is then invisible to every rule, as it is to every caller.
+func normalizeDelegation(prog *ssa.Program) {
+	delegateName = map[*ssa.Function]*ssa.Function{}
+	delegationWrapper = map[*ssa.Function]bool{}
+	impl := map[*ssa.Function]*ssa.Function{}
+	var all []*ssa.Function
+	for fn := range ssautil.AllFunctions(prog) {
+		all = append(all, fn)
+	}
+	for _, fn := range all {
+		if fn.Pkg == nil || !inModule(fn.Pkg.Pkg.Path()) || fn.Blocks == nil {
+			continue
+		}
+		if target := followDelegation(fn); target != fn {
+			impl[fn] = target
+			delegationWrapper[fn] = true
+			if delegateName[target] == nil {
+				delegateName[target] = fn
+			}
+		}
+	}
+	if len(impl) == 0 {
+		return
+	}
+	for _, fn := range all {
+		for _, b := range fn.Blocks {
+			for _, in := range b.Instrs {
+				ci, ok := in.(ssa.CallInstruction)
+				if !ok || ci.Common().IsInvoke() {
+					continue
+				}
+				if callee := ci.Common().StaticCallee(); callee != nil {
+					if target, isWrapper := impl[callee]; isWrapper && fn != callee {
+						ci.Common().Value = target
+					}
+				}
+			}
+		}
+	}
+}
+
 func fnName(f *ssa.Function) string {
 	if f == nil {
 		return "<nil>"
+	}
+	if w := delegateName[f]; w != nil {
+		f = w
 	}
 	s := f.String()
 	s = strings.ReplaceAll(s, modPath+"/", "")
